@@ -39,14 +39,16 @@ Definition object_ok (o : obj) : bool :=
 Definition validate_object (o : obj) : bool :=
   if forallb part_ok (parts o) then object_ok o else false.
 
-(* findPartStore: a struct has a field implementing PartStore, or a Storage field that has one *)
+(* findPartStore: a struct has a *NamedPartStores field (its Default() store is used; since /repo
+   df6e7b9) or a field implementing PartStore, or a Storage field whose struct has one *)
 Inductive layout := L (direct_partstore : bool) (storage_fields : list layout).
 Fixpoint find_part_store (l : layout) : bool :=
   match l with L d inner => d || existsb find_part_store inner end.
 
-(* metadataPartStorage on the current tree: lifecycle, db, metadataStore, *NamedPartStores, gc,
-   task handle, tracer — no field implements PartStore or Storage *)
-Definition current_layout : layout := L false [].
+(* metadataPartStorage: lifecycle, db, metadataStore, *NamedPartStores, gc, task handle, tracer.
+   Before df6e7b9 no field counted (layout [L false []], ValidateAll always failed); now the
+   *NamedPartStores field yields the default part store *)
+Definition current_layout : layout := L true [].
 
 (* ValidateAll: None = error; per object (success, deleted) *)
 Definition validate_all (l : layout) (del : bool) (objs : list obj) : option (list (bool * bool)) :=
@@ -54,7 +56,13 @@ Definition validate_all (l : layout) (del : bool) (objs : list obj) : option (li
     Some (map (fun o => let s := validate_object o in (s, negb s && del)) objs)
   else None.
 
-(* ---- line protocol:  <V|D> <kind>:<faults>,...   ->   <ValidateAll> | <per object> ---- *)
+(* report counters: TotalObjects / FailedObjects / DeletedObjects *)
+Definition count_true (l : list bool) : nat := length (filter (fun b => b) l).
+Definition show_counts (rs : list (bool * bool)) : bytes :=
+  show_nat (length rs) ++ B"/" ++ show_nat (count_true (map (fun r : bool * bool => negb (fst r)) rs))
+  ++ B"/" ++ show_nat (count_true (map (fun r : bool * bool => snd r) rs)).
+
+(* ---- line protocol:  <V|D> <kind>:<faults>,...   ->   <ValidateAll>:<counts> | <per object> ---- *)
 Definition mk_parts (base : N) (faults : bytes) : list part :=
   map (fun jf => let r := (base + 2 * N.of_nat (fst jf))%N in
                  {| rec := r;
@@ -93,6 +101,7 @@ Definition run_line (l : bytes) : bytes :=
       let va := match validate_all current_layout del objs with
                 | None => B"ERR"
                 | Some rs => map (fun r : bool * bool => if fst r then "-"%byte else if snd r then "D"%byte else "R"%byte) rs
+                             ++ B":" ++ show_counts rs
                 end in
       va ++ B" | " ++ map (fun o => if validate_object o then "-"%byte else "R"%byte) objs
   | _ => parse_error
